@@ -103,6 +103,9 @@ def make_case(idx):
         fname = 'f1'
         targets = [1, 2, cols - 1, cols, cols + 1, cols + cols // 2, 2 * cols, 2 * cols + 1, 3 * cols]
         prog = [R.choice(['%d|' % R.choice(targets), '$', '0', 'l', 'h', '3l', '3h', 'j', 'k', 'w', 'b']) for _ in range(R.randint(1, 8))]
+        if R.random() < 0.4:
+            # a prompt opened and given up in between (prompts are drawn left-to-right; the text direction is the buffer's again afterwards)
+            prog.insert(R.randint(0, len(prog)), R.choice([':', '/', '?x', '!!', ':se', '/ab']))
     if not horiz and not rtl and R.random() < 0.06:
         # a second buffer with unsaved changes: :wq / :x / :q are refused and switch to it - the window must show it
         prog = prog[:R.randint(0, 4)] + [R.choice(['x', 'dd', 'ix\x1b', 'J']), ':e! f2\n'] + prog[4:R.randint(4, 8)] + [R.choice([':wq\n', ':x\n', ':q\n', ':wq\n'])] + prog[8:11]
